@@ -10,7 +10,7 @@ struct ArcEntry {
     name: String,
     index: u32,
     size: u32,
-    address: u32,
+    address: usize,
 }
 
 pub fn from_bytes(bytes: &[u8]) -> Result<HashMap<String, Vec<u8>>> {
@@ -20,7 +20,7 @@ pub fn from_bytes(bytes: &[u8]) -> Result<HashMap<String, Vec<u8>>> {
         .find_label_address("Count")
         .ok_or(ArcError::NoCount)?;
     let info_address = archive.find_label_address("Info").ok_or(ArcError::NoInfo)?;
-    let header_padding = if archive.read_u32(0)? == 0 { 0x60 } else { 0 };
+    let header_padding: usize = if archive.read_u32(0)? == 0 { 0x60 } else { 0 };
 
     // Read metadata
     let mut entries: Vec<ArcEntry> = Vec::new();
@@ -31,7 +31,7 @@ pub fn from_bytes(bytes: &[u8]) -> Result<HashMap<String, Vec<u8>>> {
         let name = reader.read_string()?.ok_or(ArcError::MissingName)?;
         let index = reader.read_u32()?;
         let size = reader.read_u32()?;
-        let address = reader.read_u32()? + header_padding;
+        let address = reader.read_u32()? as usize + header_padding;
         entries.push(ArcEntry {
             name,
             index,
@@ -43,7 +43,7 @@ pub fn from_bytes(bytes: &[u8]) -> Result<HashMap<String, Vec<u8>>> {
     // Read files.
     let mut files: HashMap<String, Vec<u8>> = HashMap::new();
     for entry in entries {
-        reader.seek(entry.address as usize);
+        reader.seek(entry.address);
         let buffer = reader.read_bytes(entry.size as usize)?;
         files.insert(entry.name, buffer);
     }
